@@ -306,6 +306,14 @@ func (prop) Drive(d *core.Driver) error {
 		cd := caseData{Kind: "prog", Files: map[string]string{"main.go": p.Source}, Concurrent: []int{2, 4, 8, 16}[r.Intn(4)], Procs: procs[r.Intn(len(procs))], YieldSeed: r.Uint64() | 1, Rounds: 2}
 		cases = append(cases, core.NewCase(fmt.Sprintf("prog-%d", i), cd))
 	}
+	// programs whose package-level state is changed through function values,
+	// deferred calls and variables holding functions: every run starts from
+	// the initial state, whatever earlier and concurrent runs did
+	for i := 0; i < np; i++ {
+		r := d.Rand(fmt.Sprintf("sprog-%d", i))
+		cd := caseData{Kind: "prog", Files: map[string]string{"main.go": stateProgram(r)}, Concurrent: []int{2, 4, 8, 16}[r.Intn(4)], Procs: procs[r.Intn(len(procs))], YieldSeed: r.Uint64() | 1, Rounds: 3, Fragments: []string{"state-program"}}
+		cases = append(cases, core.NewCase(fmt.Sprintf("sprog-%d", i), cd))
+	}
 	// every artefact under the race detector, then again without it recording interleavings
 	d.Run(cases, core.RunOpts{Race: true, Workers: 8, CaseWall: 5 * time.Minute})
 	for i := range cases {
@@ -571,4 +579,46 @@ func checkKV(ops []kvOp) (porcupine.CheckResult, string) {
 		_ = info
 	}
 	return res, desc
+}
+
+// stateProgram returns a program with package-level state that is read and
+// written through direct calls, values of package-level functions, deferred
+// calls, closures and package-level variables that hold functions.
+func stateProgram(r interface{ Intn(int) int }) string {
+	var b strings.Builder
+	b.WriteString("package main\n\nvar counter int\nvar log []int\nvar m = map[string]int{}\nvar arr [3]int\nvar st struct{ A, B int }\n\n")
+	b.WriteString("func add(n int) int {\n\tcounter += n\n\tlog = append(log, counter)\n\tarr[n%3]++\n\treturn counter\n}\n\n")
+	b.WriteString("func report() {\n\tprintln(\"report\", counter, len(log), m[\"k\"], arr[0], arr[1], arr[2], st.A, st.B)\n}\n\n")
+	b.WriteString("func apply(f func(int) int, v int) int {\n\treturn f(v)\n}\n\n")
+	b.WriteString("func twice(f func()) {\n\tf()\n\tf()\n}\n\n")
+	b.WriteString("var hook = add\nvar hooks = []func(int) int{add, func(n int) int { st.A += n; return st.A }}\nvar initial = add(1)\n\n")
+	b.WriteString("func main() {\n\tdefer report()\n")
+	n := 4 + r.Intn(8)
+	for i := 0; i < n; i++ {
+		k := 1 + r.Intn(9)
+		switch r.Intn(10) {
+		case 0:
+			fmt.Fprintf(&b, "\tf%d := add\n\tf%d(%d)\n", i, i, k)
+		case 1:
+			fmt.Fprintf(&b, "\tprintln(\"apply\", apply(add, %d))\n", k)
+		case 2:
+			fmt.Fprintf(&b, "\thook(%d)\n", k)
+		case 3:
+			fmt.Fprintf(&b, "\tdefer add(%d)\n", k)
+		case 4:
+			fmt.Fprintf(&b, "\tg%d := report\n\tg%d()\n", i, i)
+		case 5:
+			fmt.Fprintf(&b, "\ttwice(report)\n")
+		case 6:
+			fmt.Fprintf(&b, "\tm[\"k\"] += hooks[%d](%d)\n", r.Intn(2), k)
+		case 7:
+			fmt.Fprintf(&b, "\tfunc() {\n\t\tdefer report()\n\t\tp := &arr[%d]\n\t\t*p += %d\n\t\tst.A, st.B = st.B+%d, st.A\n\t}()\n", r.Intn(3), k, k)
+		case 8:
+			fmt.Fprintf(&b, "\tfor i := 0; i < %d; i++ {\n\t\tdefer func(h func(int) int) {\n\t\t\th(i)\n\t\t}(add)\n\t}\n", 1+r.Intn(3))
+		default:
+			fmt.Fprintf(&b, "\tadd(%d)\n", k)
+		}
+	}
+	b.WriteString("\tprintln(\"main\", counter, len(log), initial)\n}\n")
+	return b.String()
 }
